@@ -747,6 +747,51 @@ static void free_chunks(struct simfd *f)
 	f->rx_head = f->rx_tail = NULL;
 }
 
+/* other ways to move bytes over a descriptor: a simulated socket sees them as the read / writev they amount to; anything else
+ * (the password file, stdio) goes to the real kernel */
+ssize_t __real_write(int fd, const void *buf, size_t count);
+ssize_t __wrap_write(int fd, const void *buf, size_t count)
+{
+	if (!is_sim(fd)) return __real_write(fd, buf, count);
+	struct iovec v;
+	v.iov_base = (void *)buf;
+	v.iov_len = count;
+	return __wrap_writev(fd, &v, 1);
+}
+
+ssize_t __real_send(int fd, const void *buf, size_t count, int flags);
+ssize_t __wrap_send(int fd, const void *buf, size_t count, int flags)
+{
+	if (!is_sim(fd)) return __real_send(fd, buf, count, flags);
+	int was = sigpipe_ignored;
+	if (flags & MSG_NOSIGNAL) sigpipe_ignored = 1;
+	ssize_t r = __wrap_write(fd, buf, count);
+	sigpipe_ignored = was;
+	return r;
+}
+
+ssize_t __real_recv(int fd, void *buf, size_t count, int flags);
+ssize_t __wrap_recv(int fd, void *buf, size_t count, int flags)
+{
+	if (!is_sim(fd)) return __real_recv(fd, buf, count, flags);
+	return __wrap_read(fd, buf, count);
+}
+
+ssize_t __real_readv(int fd, const struct iovec *iov, int iovcnt);
+ssize_t __wrap_readv(int fd, const struct iovec *iov, int iovcnt)
+{
+	if (!is_sim(fd)) return __real_readv(fd, iov, iovcnt);
+	ssize_t total = 0;
+	for (int i = 0; i < iovcnt; i++) {
+		if (iov[i].iov_len == 0) continue;
+		ssize_t r = __wrap_read(fd, iov[i].iov_base, iov[i].iov_len);
+		if (r < 0) return total ? total : r;
+		total += r;
+		if ((size_t)r < iov[i].iov_len) break;
+	}
+	return total;
+}
+
 int __wrap_close(int fd)
 {
 	if (!is_sim(fd)) {
@@ -1073,7 +1118,7 @@ static void reply(void)
 	ds_put(&out, "\n");
 	size_t off = 0;
 	while (off < out.len) {
-		ssize_t n = write(1, out.p + off, out.len - off);
+		ssize_t n = __real_write(1, out.p + off, out.len - off);
 		if (n <= 0) {
 			if (n < 0 && errno == EINTR) continue;
 			_exit(3);
